@@ -56,6 +56,16 @@ Proof.
 Qed.
 Print Assumptions c01_heap_refines_sorted.
 
+(** Every well-formed queue (heap shape + distinct sequence numbers — part of the engine invariant
+    [e_ok], hence true of every reachable queue) represents its contents sorted by (time, seq), and
+    popping it until empty (also what SaveCheckpoint's snapshot reports) lists exactly that. *)
+Theorem c01_queue_refines_sorted : forall (E : Type) (etime : E -> N) (q : @queue E),
+  q_ok etime q ->
+  Repr (qless etime) (q_heap q) (isort etime (q_heap q)) /\
+  hdrain (qless etime) (length (q_heap q)) (q_heap q) = isort etime (q_heap q).
+Proof. intros E etime q Hq. split; [apply q_ok_repr; exact Hq|apply q_drain_sorted; exact Hq]. Qed.
+Print Assumptions c01_queue_refines_sorted.
+
 (* ------------------------------------------------------------------ the engine *)
 
 (** Any initial Schedule calls on a fresh engine succeed and give a state satisfying the invariant,
@@ -133,6 +143,18 @@ Theorem c01_primary_before_secondary :
   qtime etime (st_ev s) < qtime etime y.
 Proof. intros E etime esec HS H HH en0 Hok fuel hs. exact (g_primary_before_secondary etime esec H HH en0 Hok fuel hs). Qed.
 Print Assumptions c01_primary_before_secondary.
+
+(** What "every primary before any secondary at an instant" cannot mean: a primary that a secondary's
+    handler schedules at that same instant necessarily runs after that secondary (it did not exist
+    before).  Witness: a secondary at t=3 schedules a primary at t=3 while another secondary at t=3
+    is queued; the order handled is secondary(uid 0), primary(uid 2), its child primary(uid 3),
+    secondary(uid 1) — the new primaries overtake the remaining secondary, as [c01_primary_before_secondary] demands. *)
+Theorem c01_same_instant_primary_follows_its_secondary_parent :
+  map (fun s => (s_sec (fst (st_ev s)), s_time (fst (st_ev s)), s_uid (fst (st_ev s))))
+      (r_log (run_script [[[Sp 0 0 false]]] 5 [(3, 0, true, 2); (3, 0, true, 0)]))
+  = [(true, 3, 0); (false, 3, 2); (false, 3, 3); (true, 3, 1)].
+Proof. vm_compute. reflexivity. Qed.
+Print Assumptions c01_same_instant_primary_follows_its_secondary_parent.
 
 (** FIFO: of two handled events with the same time and class, the one handled later has the larger
     sequence number ... *)
